@@ -49,13 +49,13 @@ using namespace torrent;
 
 // ---------------------------------------------------------------- random() interposition
 static std::deque<long> g_rnd;          // values the case line dictates (token secrets, get_peers block)
-static uint64_t g_fill = 0x9e3779b97f4a7c15ull;  // everything else (transaction ids, random search targets)
+static uint64_t g_fill = 0x9e3779b97f4a7c15ull;  // (unused since the transaction layer is modelled)
+static long g_fillc = 0;                // everything else (transaction ids, random search targets): a per-case constant
 static unsigned long g_rnd_calls = 0;
 extern "C" long random() {
   g_rnd_calls++;
   if (!g_rnd.empty()) { long v = g_rnd.front(); g_rnd.pop_front(); return v; }
-  g_fill = g_fill * 6364136223846793005ull + 1442695040888963407ull;
-  return (long)((g_fill >> 33) & 0x7fffffff);
+  return g_fillc;
 }
 
 // ---------------------------------------------------------------- helpers
@@ -94,6 +94,20 @@ static std::vector<std::string> split(const std::string& s, char c) {
   return out;
 }
 
+// A node learnt from a datagram carries the (ephemeral) port of the scripted socket it came from; the
+// model writes port 0 for it.
+static uint16_t canon_port(uint32_t ip, uint16_t port);
+static std::string canon_nodes(const char* p, size_t n) {
+  std::string raw(p, n);
+  for (size_t i = 0; i + 26 <= raw.size(); i += 26) {
+    uint32_t ip = ntohl(*reinterpret_cast<const uint32_t*>(raw.data() + i + 20));
+    uint16_t port = ntohs(*reinterpret_cast<const uint16_t*>(raw.data() + i + 24));
+    uint16_t c = htons(canon_port(ip, port));
+    memcpy(&raw[i + 24], &c, 2);
+  }
+  return hex(raw);
+}
+
 static std::string dump(DhtRouter* r) {
   std::string o;
   char buf[256];
@@ -108,7 +122,7 @@ static std::string dump(DhtRouter* r) {
     for (auto n : *b) {
       auto sin = reinterpret_cast<const sockaddr_in*>(n->address());
       snprintf(buf, sizeof buf, "%s%s/%u/%u/%u/%d/%u%s", first ? "" : ",", hx(n->id()).c_str(), ntohl(sin->sin_addr.s_addr),
-               ntohs(sin->sin_port), n->m_last_seen, n->m_recently_active ? 1 : 0, n->m_recently_inactive,
+               canon_port(ntohl(sin->sin_addr.s_addr), ntohs(sin->sin_port)), n->m_last_seen, n->m_recently_active ? 1 : 0, n->m_recently_inactive,
                n->m_bucket == b ? "" : "!");
       o += buf;
       first = false;
@@ -174,6 +188,14 @@ static int script_sock(uint32_t ip) {
   g_socks[ip] = fd;
   return fd;
 }
+static uint16_t canon_port(uint32_t ip, uint16_t port) {
+  auto it = g_socks.find(ip);
+  if (it == g_socks.end()) return port;
+  sockaddr_in sin{};
+  socklen_t sl = sizeof sin;
+  getsockname(it->second, reinterpret_cast<sockaddr*>(&sin), &sl);
+  return ntohs(sin.sin_port) == port ? 0 : port;
+}
 static void close_socks() {
   for (auto& [ip, fd] : g_socks) close(fd);
   g_socks.clear();
@@ -211,7 +233,7 @@ static std::string show_datagram(const std::string& d, const HashString& own) {
     const Object& r = o.get_key("r");
     std::string out = "r t=" + t + " id=" + (r.has_key_string("id") ? hex(r.get_key_string("id")) : "~");
     out += " tok=" + (r.has_key_string("token") ? hex(r.get_key_string("token")) : std::string("~"));
-    out += " n=" + (r.has_key_string("nodes") ? hex(r.get_key_string("nodes")) : std::string("~"));
+    out += " n=" + (r.has_key_string("nodes") ? canon_nodes(r.get_key_string("nodes").data(), r.get_key_string("nodes").size()) : std::string("~"));
     if (r.has_key_list("values")) {
       std::string v;
       for (auto& x : r.get_key_list("values")) {
@@ -289,6 +311,30 @@ static int pick_port() {
   throw std::runtime_error("no free UDP port");
 }
 
+static bool g_untracked;
+static void update_untracked(DhtRouter* r) {
+  if (!r->m_server.m_searches.empty()) g_untracked = true;
+  for (auto& kv : r->m_server.m_transactions)
+    if (kv.second->type() != DhtTransaction::DHT_PING) g_untracked = true;
+}
+static std::string txdump(DhtRouter* r) {
+  if (g_untracked) return "x";
+  std::vector<std::pair<uint32_t, std::string>> v;
+  for (auto& kv : r->m_server.m_transactions) {
+    auto& t = kv.second;
+    auto sin = reinterpret_cast<const sockaddr_in*>(t->address());
+    char buf[160];
+    snprintf(buf, sizeof buf, "%u/%u/%s/%d/%d", ntohl(sin->sin_addr.s_addr), (unsigned)(kv.first & 0xffffffffu), hx(t->id()).c_str(),
+             t->timeout(), t->packet() == nullptr ? 1 : 0);
+    v.emplace_back(ntohl(sin->sin_addr.s_addr), buf);
+  }
+  std::sort(v.begin(), v.end());
+  std::string o = "tx=";
+  for (size_t i = 0; i < v.size(); i++) o += (i ? "," : "") + v[i].second;
+  o += std::string(" up=") + (r->m_server.m_networkUp ? "1" : "0");
+  return o;
+}
+
 static long long g_now;
 static void set_now(long long s) {
   g_now = s;
@@ -299,10 +345,11 @@ static std::string run_case(const std::vector<std::string>& t) {
   if (t.size() < 5 || t[0] != "N") return "BADCASE";
   HashString own = hs(t[1]);
   g_rnd.clear();
-  g_fill = 0x9e3779b97f4a7c15ull;
+  g_fillc = (std::stol(t[2]) + 7 * std::stol(t[3])) & 0x7fffffff;
   g_rnd.push_back(std::stol(t[2]));
   g_rnd.push_back(std::stol(t[3]));
   set_now(std::stoll(t[4]));
+  g_untracked = false;
 
   Object cache = Object::create_map();
   cache.insert_key("self_id", std::string(own.data(), 20));
@@ -374,7 +421,7 @@ static std::string run_case(const std::vector<std::string>& t) {
           if (reply[key_r_values].is_raw_list()) res += " v=" + values_str(reply[key_r_values].as_raw_list());
           if (reply[key_r_nodes].is_raw_string()) {
             raw_string n = reply[key_r_nodes].as_raw_string();
-            res += " n=" + hex(n.data(), n.size());
+            res += " n=" + canon_nodes(n.data(), n.size());
           }
         } catch (network_error& e) { res = std::string("err:") + e.what(); }
         g_rnd.clear();
@@ -385,7 +432,7 @@ static std::string run_case(const std::vector<std::string>& t) {
         try {
           r->m_server.create_find_node_response(req, reply);
           raw_string n = reply[key_r_nodes].as_raw_string();
-          res = "n=" + hex(n.data(), n.size());
+          res = "n=" + canon_nodes(n.data(), n.size());
         } catch (network_error& e) { res = std::string("err:") + e.what(); }
       } else if (k == "U") {
         // U,ip,rnd,t,y,q,id,target,ih,token,port
@@ -404,6 +451,27 @@ static std::string run_case(const std::vector<std::string>& t) {
         d += "e";
         if (f.at(4) == "72" || f.at(4) == "65") res = "x";     // replies / errors are not modelled
         else res = send_and_collect(r.get(), ip, d, std::stol(f.at(2)), own);
+      } else if (k == "Y" || k == "E") {
+        // Y,ip,t,id : a reply (y = "r") from ip;  E,ip,t : an error (y = "e") from ip
+        if (g_untracked) res = "x";
+        else {
+          std::string d = "d";
+          if (k == "Y") { std::string a; put_str(a, "id", f.at(3)); d += "1:rd" + a + "e"; }
+          else d += "1:eli201e1:xe";
+          put_str(d, "t", f.at(2));
+          d += k == "Y" ? "1:y1:re" : "1:y1:ee";
+          res = send_and_collect(r.get(), std::stoul(f.at(1)), d, 0, own);
+        }
+      } else if (k == "S") {
+        if (g_untracked) res = "x";
+        else {
+          // what the scheduler does when DhtServer's timeout entry fires
+          this_thread::scheduler()->erase(&r->m_server.m_task_timeout);
+          r->m_server.receive_timeout();
+          res = "-";
+        }
+      } else if (k == "Z") {
+        res = txdump(r.get());
       } else if (k == "X") {
         res = send_and_collect(r.get(), std::stoul(f.at(1)), unhex(f.at(2)), 0, own);
       } else if (k == "W") {
@@ -413,6 +481,8 @@ static std::string run_case(const std::vector<std::string>& t) {
       } else {
         res = "BADOP";
       }
+      update_untracked(r.get());
+      if (k == "Z") res = txdump(r.get());
       char h[16];
       snprintf(h, sizeof h, "#%08x", fnv32(dump(r.get())));
       out += k + ":" + res + h + " | ";
